@@ -73,7 +73,7 @@ def do(op: dict) -> dict:
                     vals[name] = err_enum(ex)
             res.append({"end": nav.location.end, "fields": vals})
             if op.get("keep"):
-                KEEP.append(nav)
+                KEEP.append((nav, dict(vals)))
         return {"rows": res}
     if kind == "drop":
         KEEP.clear()
@@ -86,7 +86,17 @@ def do(op: dict) -> dict:
                 bad.append(f"document {i} changed")
             if s.json() != j0:
                 bad.append(f"loaded schema {i} changed")
-        return {"immutable": not bad, "detail": bad[:3], "watched": len(WATCH)}
+        # rows kept alive: what each yields now must be what it yielded when it was read
+        for i, (nav, vals) in enumerate(KEEP):
+            for name, was in vals.items():
+                try:
+                    n = nav.name(name)
+                    now = [n.location.start, n.location.end, repr(n.value())]
+                except BaseException as ex:  # noqa: BLE001
+                    now = err_enum(ex)
+                if now != was:
+                    bad.append(f"kept row {i}: field {name} yielded {was} when read and {now} after later reads")
+        return {"immutable": not bad, "detail": bad[:3], "watched": len(WATCH), "kept": len(KEEP)}
     raise ValueError(kind)
 
 
